@@ -187,7 +187,15 @@ def generate():
         "negField": ("Bool", negative_fields(find_func(cap, "negative_fields"))),
         "posFail": ("Bool", positive_fields(find_func(cap, "positive_fields"))),
     }
+    # every method the two classes define (own + inherited from JSONField): the model of augmented assignment
+    # (`a += b` rebinds to a new object unless an in-place operator exists) depends on this list
+    methods = sorted({n.name for n in cap.body if isinstance(n, ast.FunctionDef)} |
+                     {n.name for n in find_class(tree, "JSONField").body if isinstance(n, ast.FunctionDef)})
+    known = {"__init__", "_set_fields", "__add__", "__sub__", "__gt__", "__lt__", "__eq__", "negative_fields", "positive_fields",
+             "__str__", "update", "to_json", "from_json", "to_dict", "__repr__", "list_fields"}
+    extra = [m for m in methods if m not in known]
     body = "def fields : List String := %s\n\n" % lean_list([lean_str(f) for f in fields])
+    body += "/-- methods defined on Capacities or inherited from JSONField -/\ndef methods : List String := %s\n\n" % lean_list([lean_str(m) for m in methods])
     body += "def units : List (String × String) := %s\n\n" % lean_list(["(%s, %s)" % (lean_str(f), lean_str(units[f])) for f in fields])
     for name, (ty, e) in ops.items():
         args = "(a : Int)" if name in ("negField", "posFail") else "(a b : Int)"
@@ -195,5 +203,5 @@ def generate():
     body += "/-- FreeCapacity.__init__: free field as a function of total (a) and allocated (b). -/\n"
     body += "def freeOp (a b : Int) : Int := %s\n" % free_capacity(find_class(tree, "FreeCapacity"))
     changed = emit("CapOps", body)
-    return {"fields": fields, "ops": {k: v[1] for k, v in ops.items()}, "changed": changed,
+    return {"fields": fields, "methods": methods, "methods_not_modelled": extra, "ops": {k: v[1] for k, v in ops.items()}, "changed": changed,
             "span": span_hash(src, cap)}
